@@ -255,6 +255,8 @@ func evalLine(line string) string {
 		default:
 			if r, ok := codecRes(toks[1:]); ok {
 				res = r
+			} else if r, ok := samplingRes(toks[1:]); ok {
+				res = r
 			}
 		}
 	})
@@ -304,6 +306,10 @@ func main() {
 	}
 	seed := *hlib.FlagSeed
 	hlib.InstallTape(seed)
+	if strings.HasPrefix(*hlib.FlagMode, "longsearch:") {
+		longSearchMode(*hlib.FlagMode)
+		return
+	}
 	if *hlib.FlagReplay != "" {
 		if !hlib.Pre() {
 			replay(o, *hlib.FlagReplay)
@@ -318,6 +324,7 @@ func main() {
 	scalarSection(o, seed)
 	codecSection(o, seed)
 	algSection(o, seed)
+	sampleSection(o, seed)
 	craftSection(o, seed)
 	apiSection(o, seed)
 	compositeSection(o, seed)
